@@ -16,6 +16,7 @@ import (
 	"time"
 
 	"github.com/milvus-io/milvus-proto/go-api/v2/commonpb"
+	"github.com/milvus-io/milvus-proto/go-api/v2/msgpb"
 	"github.com/milvus-io/milvus-proto/go-api/v2/schemapb"
 	"github.com/milvus-io/milvus/pkg/mq/msgstream"
 	"github.com/sasha-s/go-deadlock"
@@ -33,7 +34,7 @@ import (
 	"verifharness/lib/rfake"
 )
 
-var mode = flag.String("mode", "c01", "c01|c02|c03|c04")
+var mode = flag.String("mode", "c01", "c01|c02|c03|c04|c06")
 
 // ---------------------------------------------------------------- script
 type coll struct {
@@ -52,6 +53,8 @@ type smsg struct {
 	pname string
 	ts    uint64
 	rows  int
+	// the source position names the physical channel (as Milvus' own positions do) instead of the virtual one
+	pospch bool
 }
 
 type label struct {
@@ -79,7 +82,7 @@ var doneCh = make(chan done, 1024)
 
 func kindCoq(k string) string {
 	return map[string]string{"insert": "KInsert", "delete": "KDelete", "dropcoll": "KDropColl", "droppart": "KDropPart",
-		"createcoll": "KCreateColl", "createpart": "KCreatePart", "tick": "KTick", "other": "KOther"}[k]
+		"createcoll": "KCreateColl", "createpart": "KCreatePart", "tick": "KTick", "other": "KOther", "import": "KImport"}[k]
 }
 
 func pmapCoq(m map[string]int64) string {
@@ -113,8 +116,8 @@ func labelCoq(l label) string {
 	case "feed":
 		var ms []string
 		for _, m := range l.msgs {
-			ms = append(ms, fmt.Sprintf("{| m_kind := %s; m_id := %s; m_coll := %s; m_part := %s; m_pname := %s; m_ts := %s; m_rows := %d%%nat |}",
-				kindCoq(m.kind), cq.N(m.id), cq.Z(m.coll), cq.Z(m.part), cq.Str(m.pname), cq.N(m.ts), m.rows))
+			ms = append(ms, fmt.Sprintf("{| m_kind := %s; m_id := %s; m_coll := %s; m_part := %s; m_pname := %s; m_ts := %s; m_rows := %d%%nat; m_pospch := %s |}",
+				kindCoq(m.kind), cq.N(m.id), cq.Z(m.coll), cq.Z(m.part), cq.Str(m.pname), cq.N(m.ts), m.rows, cq.Bool(m.pospch)))
 		}
 		var starts []string
 		for i := 0; i < l.nstart; i++ {
@@ -170,6 +173,12 @@ func build(m smsg, svch string, c *coll) msgstream.TsMsg {
 		return rfake.DropPartition(m.id, m.ts, svch, m.coll, m.part, m.pname, c.name)
 	case "dropcoll":
 		return rfake.DropCollection(m.id, m.ts, svch, m.coll, c.name)
+	case "import":
+		ids := make([]int64, m.rows)
+		for i := range ids {
+			ids[i] = m.coll*100 + int64(i)
+		}
+		return rfake.Import(m.id, m.ts, svch, m.coll, ids, c.name)
 	case "createpart":
 		return rfake.CreatePartition(m.id, m.ts, svch, m.coll, m.part, m.pname, c.name)
 	case "createcoll":
@@ -197,6 +206,9 @@ func payloadSame(a, b msgstream.TsMsg) bool {
 	case *msgstream.DropCollectionMsg:
 		y, ok := b.(*msgstream.DropCollectionMsg)
 		return ok && x.CollectionName == y.CollectionName && x.DbName == y.DbName
+	case *msgstream.ImportMsg:
+		y, ok := b.(*msgstream.ImportMsg)
+		return ok && x.CollectionName == y.CollectionName && x.DbName == y.DbName && x.JobID == y.JobID
 	}
 	return true
 }
@@ -211,6 +223,8 @@ func clone(m msgstream.TsMsg) msgstream.TsMsg {
 		return rfake.DropPartition(uint64(x.Base.MsgID), x.BeginTimestamp, "", x.CollectionID, x.PartitionID, x.PartitionName, x.CollectionName)
 	case *msgstream.DropCollectionMsg:
 		return rfake.DropCollection(uint64(x.Base.MsgID), x.BeginTimestamp, "", x.CollectionID, x.CollectionName)
+	case *msgstream.ImportMsg:
+		return rfake.Import(uint64(x.Base.MsgID), x.BeginTimestamp, "", x.CollectionID, append([]int64{}, x.PartitionIDs...), x.CollectionName)
 	}
 	return m
 }
@@ -236,6 +250,8 @@ func (s *sys) emsg(m msgstream.TsMsg) string {
 		kind, id, collID, part, pname = "KDropPart", uint64(x.Base.MsgID), x.CollectionID, x.PartitionID, x.PartitionName
 	case *msgstream.DropCollectionMsg:
 		kind, id, collID = "KDropColl", uint64(x.Base.MsgID), x.CollectionID
+	case *msgstream.ImportMsg:
+		kind, id, collID, rows = "KImport", uint64(x.Base.MsgID), x.CollectionID, len(x.PartitionIDs)
 	case *msgstream.TimeTickMsg:
 		kind = "KTick"
 	}
@@ -374,6 +390,10 @@ func (s *sys) apply(l label) {
 		var ms []msgstream.TsMsg
 		for _, m := range l.msgs {
 			x := build(m, l.svch, l.c)
+			if m.pospch && x.Position() != nil {
+				op := x.Position()
+				x.SetPosition(&msgpb.MsgPosition{ChannelName: l.spch, MsgID: op.MsgID, MsgGroup: op.MsgGroup, Timestamp: op.Timestamp})
+			}
 			if m.id != 0 {
 				s.src[m.id] = clone(x)
 			}
@@ -481,8 +501,8 @@ func main() {
 			}
 		}
 	})
-	imp := map[string]string{"c01": "C01", "c02": "C02", "c03": "C03", "c04": "C04"}[*mode]
-	out := cq.NewOut(a.Out, fmt.Sprintf("From Verif Require Import Reader.Model %s.Check.", imp), "case", 100)
+	imp := map[string]string{"c01": "C01.Check", "c02": "C02.Check", "c03": "C03.Check", "c04": "C04.Check", "c06": "C06.RCheck"}[*mode]
+	out := cq.NewOut(a.Out, fmt.Sprintf("From Verif Require Import Reader.Model %s.", imp), "case", 100)
 	corpus(out)
 	for id := 0; id < a.N; id++ {
 		labels, retries := generate(a, *mode)
